@@ -49,3 +49,21 @@ func init() {
 			"verify function accepts every block, as replications/internal does"},
 	})
 }
+
+var engReal = []string{"tsdb.Shard, tsm1.Engine (Cache, WAL, FileStore, Compactor, DefaultPlanner, Tombstoner, real snapshot/compaction goroutines), tsi1.Index, tsdb.SeriesFile, MeasurementFieldSet — instrumented from the working tree"}
+var engStub = []string{"disk: simfs pass-through on tmpfs (numbered events, crash images)", "clock: synctest bubble", "scheduler: baton over instrumented lock/atomic/channel sites", "Flux: stub", "Store-level write/delete guard: harness RW lock per measurement"}
+
+func init() {
+	reg(&checkSpec{
+		ID: "C01", Harness: "eng", Inst: storagePkgs, Level: "exploration",
+		Cfgs: []cfgSpec{
+			{Name: "concurrent", Cfg: "clients=3,wdel=0,wdm=0,noreopen", Gating: true, Share: 4},
+			{Name: "with-reopen", Cfg: "clients=2,wdel=0,wdm=0", Gating: true, Share: 2},
+		},
+		QuickSecs: 60, ThoroughSecs: 900, MaxRunsPerProc: 200,
+		Rule:   "one case = one generated multi-client write/overwrite/read/snapshot/compaction program under one seeded schedule; non-trivial = at least 4 operations and at least one context switch between goroutines; distinct = distinct hash of (operation sequence, sequence of context switches with their sites)",
+		Probes: []string{"files_level1", "files_level2", "explicit_snapshots"},
+		Real:   engReal, Stub: engStub,
+		Assumptions: []string{"reads are judged with interval semantics (DESIGN §5): a value must belong to a write not definitely overwritten before the read began"},
+	})
+}
